@@ -300,8 +300,10 @@ class Ctx:
             self.ev.known_findings_seen.append(entry["id"])
 
     # ---- findings probing
-    def probe_findings(self, replay_fn: Callable[[str, Any], Optional[Failure]]):
-        """Re-run the replay of every open finding; fixed ones are regressions that must pass."""
+    def probe_findings(self, replay_fn: Callable[[str, Any], Optional[Failure]], after_open: Optional[Callable[[set], None]] = None):
+        """Re-run the replay of every open finding; fixed ones are regressions that must pass.
+        after_open(closed_flags) is called between the two phases, so a check can switch off the regions of
+        still-open findings before the regression replays of fixed ones run."""
         for e in self.findings.open:
             doc = load_replay(e["replay"])
             f = replay_fn(doc.get("check", "main"), doc["case"])
@@ -309,6 +311,8 @@ class Ctx:
                 self.findings.still_failing[e["id"]] = e
                 self.known(e)
         self.closed = self.findings.closed_flags()
+        if after_open is not None:
+            after_open(set(self.closed))
         for e in self.findings.fixed:
             if not e.get("replay"):
                 continue
